@@ -406,6 +406,49 @@ class T(Entity):
         def logic():
             self.o <<= self.pe == E2.a
 ''',
+    "multiline-comment-and-assert-message": HDR + '''
+class T(Entity):
+    clk = Port.input(Bit)
+    a = Port.input(Bit)
+    y = Port.output(Bit)
+    z = Port.output(Bit, default=False)
+    def architecture(self):
+        @std.concurrent(comment="first line\\nsecond line\\n\\nfourth line")
+        def logic():
+            self.y <<= self.a
+        @std.sequential(std.Clock(self.clk), comment="a\\nb")
+        def proc():
+            assert self.a, 'value "a" must be set'
+            assert self.a, "two\\nlines"
+            self.z <<= self.a
+''',
+    "integer-bitwise-operators": HDR + '''
+class T(Entity):
+    d = Port.input(Unsigned[3])
+    y = Port.output(Unsigned[3])
+    def architecture(self):
+        j = Signal[int](0, name="j")
+        k = Signal[int](0, name="k")
+        @std.concurrent
+        def logic():
+            j.next = self.d
+            k.next = (j & 3) | (j ^ 5)
+            self.y <<= k
+''',
+    "entity-named-like-reserved-word": HDR + '''
+class Buffer(Entity):
+    a = Port.input(Bit)
+    y = Port.output(Bit)
+    def architecture(self):
+        @std.concurrent
+        def logic():
+            self.y <<= self.a
+class T(Entity):
+    a = Port.input(Bit)
+    y = Port.output(Bit)
+    def architecture(self):
+        Buffer(a=self.a, y=self.y)
+''',
     "portless-entity-instantiated": HDR + '''
 class Leaf(Entity):
     def architecture(self):
